@@ -45,19 +45,20 @@ inductive Mode where
   | normal | commentLine | strLit | strEscaped | unquote | backtickString | freshAssignOrColon
   | firstFwdSlash | commentBlock | commentBlockAsterisk | builtinOperator | runeLit | runeEscaped
   | strHexEscape | runeHexEscape     -- repo fix C12-02: the digits of \xHH \uHHHH \UHHHHHHHH
+  | minusDot                         -- repo fix C12-05: after `-.` where a negative number may start
   deriving DecidableEq, Repr, Inhabited
 
 def modeNames : List String :=
   ["LexerNormal", "LexerCommentLine", "LexerStrLit", "LexerStrEscaped", "LexerUnquote",
    "LexerBacktickString", "LexerFreshAssignOrColon", "LexerFirstFwdSlash", "LexerCommentBlock",
    "LexerCommentBlockAsterisk", "LexerBuiltinOperator", "LexerRuneLit", "LexerRuneEscaped",
-   "LexerStrHexEscape", "LexerRuneHexEscape"]
+   "LexerStrHexEscape", "LexerRuneHexEscape", "LexerMinusDot"]
 
 def Mode.toNat : Mode → Nat
   | .normal => 0 | .commentLine => 1 | .strLit => 2 | .strEscaped => 3 | .unquote => 4
   | .backtickString => 5 | .freshAssignOrColon => 6 | .firstFwdSlash => 7 | .commentBlock => 8
   | .commentBlockAsterisk => 9 | .builtinOperator => 10 | .runeLit => 11 | .runeEscaped => 12
-  | .strHexEscape => 13 | .runeHexEscape => 14
+  | .strHexEscape => 13 | .runeHexEscape => 14 | .minusDot => 15
 
 structure Token where
   typ : TokType
@@ -65,6 +66,8 @@ structure Token where
   deriving DecidableEq, Repr, Inhabited
 
 def Token.zero : Token := ⟨.empty, []⟩
+/-- `EndTk` -/
+def Token.endTk : Token := ⟨.tEnd, []⟩
 def tk (t : TokType) (s : String) : Token := ⟨t, s.toList⟩
 
 /-- Error kinds of the lexer (the harness maps Go error messages to these). -/
@@ -352,6 +355,7 @@ structure LexCore where
 structure LexState extends LexCore where
   stream : Option (List Char) := none
   next : List (List Char) := []
+  finished : Bool := false     -- `Parser.EndInput` was called and no stream was added since (repo fix C13-02)
   deriving DecidableEq, Repr, Inhabited
 
 /-- `NewLexer`. -/
@@ -434,10 +438,21 @@ def stepBuiltin (s0 : LexCore) (r : Char) : Outcome LexCore :=
   let atom := [s.prevrune, r]
   if s.prevrune == '-' && canStartSignedNumberAfter s.preBuiltinRune && (floatRe atom || decimalRe atom) then
     .ok { s with buffer := s.buffer ++ atom }
+  else if s.prevrune == '-' && canStartSignedNumberAfter s.preBuiltinRune && r == '.' then
+    .ok { s with state := .minusDot }     -- `-.5` is a number, `-.a` is not: the next rune decides (repo fix C12-05)
   else if builtinOpRe atom then
     let a := if atom == "&&".toList then "and".toList else if atom == "||".toList then "or".toList else atom
     .ok (appendToken s ⟨.symbol, a⟩)
   else stepNormal (appendToken s ⟨.symbol, [s.prevrune]⟩) r
+
+/-- `case LexerMinusDot` (repo fix C12-05): a digit continues the negative fraction `-.d`; anything
+else leaves the symbol `-`, and the dot starts the next atom. -/
+def stepMinusDot (s0 : LexCore) (r : Char) : Outcome LexCore :=
+  let s := { s0 with state := .normal }
+  if '0' ≤ r && r ≤ '9' then .ok { s with buffer := s.buffer ++ ['-', '.', r] }
+  else
+    let s1 := appendToken s ⟨.symbol, ['-']⟩
+    stepNormal { s1 with buffer := s1.buffer ++ ['.'] } r
 
 /-- `case LexerFirstFwdSlash` -/
 def stepFirstFwdSlash (s : LexCore) (r : Char) : Outcome LexCore :=
@@ -531,6 +546,7 @@ def stepMode (s : LexCore) (r : Char) : Outcome LexCore :=
     else .ok { appendToken s ⟨.tilde, []⟩ with buffer := s.buffer ++ [r], state := .normal }
   | .freshAssignOrColon => stepFresh s r
   | .builtinOperator => stepBuiltin s r
+  | .minusDot => stepMinusDot s r
   | .normal => stepNormal s r
 
 /-- `LexNextRune`. -/
@@ -548,7 +564,7 @@ def LexState.reset (_s : LexState) : LexState :=
   { state := .normal, prevrune := '\x00', tokens := [], buffer := [], prevToken := Token.zero,
     prevPrevToken := Token.zero, preBuiltinRune := '\x00', linenum := 1, priori := 0,
     priorRune := List.replicate 20 '\x00', escDigits := 0, escValue := 0, escByte := false,
-    stream := none, next := [] }
+    stream := none, next := [], finished := false }
 
 /-- `Lexer.InLiteral` (added by the repair). -/
 def inLiteral (s : LexCore) : Bool :=
@@ -567,13 +583,17 @@ def LexState.promote (s : LexState) : Option LexState :=
   | [] => none
   | n :: rest => some { s with stream := some n, next := rest }
 
-/-- `AddNextStream`. -/
+/-- `AddNextStream` (new input: the text is no longer finished). -/
 def LexState.addNextStream (s : LexState) (p : List Char) : LexState :=
-  let s1 := { s with next := s.next ++ [p] }
+  let s1 := { s with next := s.next ++ [p], finished := false }
   match s1.stream with
   | none => (s1.promote).getD s1
   | some [] => (s1.promote).getD s1
   | some (_ :: _) => s1
+
+/-- `Parser.EndInput`: the end of the input is one more stream holding a newline, and the mark
+that nothing will follow (repo fix C13-02; before it only the newline). -/
+def LexState.endInput (s : LexState) : LexState := { s.addNextStream ['\n'] with finished := true }
 
 /-- All runes the lexer still holds, in reading order. -/
 def LexState.pending (s : LexState) : List Char := (s.stream.getD []) ++ s.next.flatten
